@@ -14,12 +14,16 @@ import (
 	"fmt"
 	"os"
 	"runtime"
+	"strconv"
 	"sync"
 
 	"verifharness/vh"
 )
 
 func workers() int {
+	if n, err := strconv.Atoi(os.Getenv("VERIF_TLSNEG_WORKERS")); err == nil && n > 0 {
+		return n
+	}
 	n := runtime.NumCPU()
 	if n > 8 {
 		n = 8
